@@ -134,6 +134,35 @@ theorem routing_spec (ord : List S → List S) (hord : ∀ l x, x ∈ ord l ↔ 
     have := List.findSome?_eq_none_iff.mp hnone k ((hord tys k).mpr hkt)
     simp [hs1, hdef1] at this
 
+/-- **Judge soundness (routing), first-order form**: whatever produced the observation, if `callOk`
+    accepts it then either it is "not available", nothing was sent and **no** offered service
+    defines the action, or exactly one request was sent, to an offered service that defines it. -/
+theorem callOk_sound (off : List Svc) (act : S) (o : CallObs) (h : callOk off act o = true) :
+    (o.na = true ∧ o.sent = [] ∧ ∀ s ∈ off, act ∉ s.acts)
+    ∨ (o.na = false ∧ ∃ s ∈ off, o.sent = [s.cid] ∧ act ∈ s.acts) := by
+  unfold callOk at h
+  cases hna : o.na with
+  | true =>
+    left
+    simp only [hna, if_true, Bool.and_eq_true, List.all_eq_true] at h
+    refine ⟨rfl, List.isEmpty_iff.mp h.1, ?_⟩
+    intro s hs hm
+    have := h.2 s hs
+    simp [hm] at this
+  | false =>
+    right
+    simp only [hna, Bool.false_eq_true, if_false] at h
+    refine ⟨rfl, ?_⟩
+    cases hs : o.sent with
+    | nil => simp [hs] at h
+    | cons i r =>
+      cases r with
+      | cons _ _ => simp [hs] at h
+      | nil =>
+        simp only [hs, List.any_eq_true, Bool.and_eq_true, beq_iff_eq] at h
+        obtain ⟨s, hs', hc, ha⟩ := h
+        exact ⟨s, hs', by rw [hc], by simpa using ha⟩
+
 /-! ### the tables of the current source -/
 
 /-- every alias a facade method defaults to is a key of `_SERVICE_TYPES` -/
@@ -317,6 +346,25 @@ example :
 
 /-! ## Part 2 — counters -/
 
+/-- **The counter arithmetic of the source is the model's**: each of the four getters tests
+    `total < 0`, then sets its offset to the model's `offsetConst` (2³¹) and returns
+    `total + offset`; `_derive_value_per_second` returns None on `last_value > current_value`,
+    divides by the model's `kibConst` (1024) exactly for the two byte counters and then by
+    `delta_time.total_seconds()`; the poll gathers the six getters in the model's order with
+    `return_exceptions=True` and its only `raise` sits under `if not non_exceptions`.
+    (`2**30`, `/1000`, `return_exceptions=False`, a reordered gather … break this theorem.) -/
+theorem igd_counter_pins :
+    Gen.C20Igd.igdCounterPins =
+      { negTests := [true, true, true, true],
+        offsets := [offsetConst, offsetConst, offsetConst, offsetConst],
+        wrapTest := true, kib := kibConst,
+        kibNames := ["bytes_received".toList, "bytes_sent".toList],
+        perSecond := true,
+        gatherOrder := ["async_get_total_bytes_received".toList, "async_get_total_bytes_sent".toList,
+          "async_get_total_packets_received".toList, "async_get_total_packets_sent".toList,
+          "async_get_status_info".toList, "async_get_external_ip_address".toList],
+        returnExceptions := true, raiseOnlyWithoutResult := true } := by decide
+
 /-- timestamps of successive samples strictly increase (first one after construction time) -/
 def increasing (t0 : Int) : List (Int × Readings) → Prop
   | [] => True
@@ -366,7 +414,7 @@ theorem sample_fields (st : IgdSt) (t : Int) (r : Readings) (s : Sample)
 
 theorem readTotal_nonneg (off : Int) (r : Raw) (h : 0 ≤ off) (hr : inRange r) :
     nonnegOk (readTotal off r).2 = true := by
-  cases r <;> simp [readTotal, nonnegOk]
+  cases r <;> simp [readTotal, nonnegOk, offsetConst]
   simp [inRange] at hr
   split <;> omega
 
@@ -407,7 +455,7 @@ theorem rate_spec (isBytes : Bool) (tNow tLast : Int) (cur last : Val) :
   · intro c l hc hl hle ht
     subst hc hl
     have h : ¬ l > c := by omega
-    refine ⟨⟨(c - l) * 1000000, (if isBytes then 1024 else 1) * (tNow - tLast)⟩, by simp [derive, h], rfl, rfl,
+    refine ⟨⟨(c - l) * 1000000, (if isBytes then 1024 else 1) * (tNow - tLast)⟩, by simp [derive, h, kibConst], rfl, rfl,
       Int.mul_nonneg (by omega) (by omega), ?_⟩
     cases isBytes <;> simp <;> omega
 
